@@ -54,12 +54,15 @@ def roland_payload():
                # a second reverse-mode sample and a reverse-mode L/R pair (two reversed views alive at the same time)
                7: {"name": "REV2", "chain": [19, 18], "points": [2, 2, 7001, 2, 7001], "mode": 6, "seq": 7},
                8: {"name": "RV -L", "chain": [20, 21], "points": [0, 0, 8999, 0, 8999], "mode": 5, "seq": 8},
-               9: {"name": "RV -R", "chain": [23, 22], "points": [0, 0, 8999, 0, 8999], "mode": 5, "seq": 9}}
+               9: {"name": "RV -R", "chain": [23, 22], "points": [0, 0, 8999, 0, 8999], "mode": 5, "seq": 9},
+               # forward samples whose window IS their file: from word 0 to the last word of the chain, and one word beyond it
+               10: {"name": "WHOLE", "chain": [25, 24], "points": [0, 0, 9215, 0, 9215], "mode": 2, "seq": 10},
+               11: {"name": "OVER", "chain": [26], "points": [0, 0, 4608, 0, 4608], "mode": 2, "seq": 11}}
     model = {"volumes": [{"name": "VOL", "perfs": [0, 1]}],
              "performances": {0: {"name": "PERF0", "patches": [0]}, 1: {"name": "PERF1", "patches": [1]}},
-             "patches": {0: {"name": "PATCH0", "partials": [0, 2]}, 1: {"name": "PATCH1", "partials": [1]}},
+             "patches": {0: {"name": "PATCH0", "partials": [0, 2, 3]}, 1: {"name": "PATCH1", "partials": [1]}},
              "partials": {0: {"name": "PART0", "samples": [0, 1, 3, 4]}, 1: {"name": "PART1", "samples": [2, 4, 6]},
-                          2: {"name": "PART2", "samples": [5, 7, 8, 9]}},   # the two halves are reached through different performances
+                          2: {"name": "PART2", "samples": [5, 7, 8, 9]}, 3: {"name": "PART3", "samples": [10, 11]}},   # the two halves are reached through different performances
              "samples": samples}
     return R.build_roland(model)[0]
 
@@ -129,11 +132,12 @@ class Ctx:
         self.streams = {}
         self.transcoders = {}
 
-    def stream(self, path):
-        if path not in self.streams:
+    def stream(self, path, view=0):
+        # (view: a further stream of the SAME sample, obtained by asking the element again)
+        if (path, view) not in self.streams:
             el = find(self.img, path)
-            self.streams[path] = el.to_generalized().data_streams[0].stream
-        return self.streams[path]
+            self.streams[(path, view)] = el.to_generalized().data_streams[0].stream
+        return self.streams[(path, view)]
 
     def transcoder(self, pl, pr):
         key = (pl, pr)
@@ -157,9 +161,9 @@ class Ctx:
 
     def _do(self, part, op):
         if op[0] == "read":
-            return self.stream(tuple(part["path"])).read(op[1])
+            return self.stream(tuple(part["path"]), part.get("view", 0)).read(op[1])
         if op[0] == "seek":
-            self.stream(tuple(part["path"])).seek(op[1], 0)
+            self.stream(tuple(part["path"]), part.get("view", 0)).seek(op[1], 0)
             return b""
         if op[0] == "ls":
             return tree.ls(self.img, op[1]).encode()
@@ -294,6 +298,14 @@ def configs(quick):
         P(R4, ("read", 4096), ("read", CL), ("read", 4096)),
         {"path": [], "ops": [["ls", "VOL/PERF1"], ["ls", "VOL/PERF1/TOP"]], "stepwise": True},
         P(("VOL", "PERF1", "TOP"), ("read", 2), ("read", 4096))]})
+    # two streams of ONE sample (the element asked twice), read in turn -- each must see the whole sample. (Where the
+    # element hands out the SAME object again -- AKAI samples and CDDA tracks do -- there is one stream, not two, and nothing
+    # to compare: such schedules are counted as 'one-stream-object')
+    for nm in ("WHOLE", "OVER", "FWD", "REV"):
+        W = ("VOL", "PERF0", nm)
+        out.append({"name": "roland:same-sample-twice:" + nm, "kind": "roland", "parts": [
+            P(W, ("read", 4096), ("read", 4096), ("read", 4096)), P(W, ("read", 4096), ("seek", 2), ("read", 4096), view=1),
+            P(R2 if nm != "FWD" else R1, ("read", 4096))]})
     HA, HB = ("VOL", "PERF0", "HALFA"), ("VOL", "PERF1", "HALFB")
     out.append({"name": "roland:two-samples-one-chain", "kind": "roland", "parts": [
         P(HA, ("read", 4096), ("read", CL), ("read", 4096)), P(HB, ("read", 2), ("read", CL + 1), ("read", 4096)),
@@ -417,7 +429,7 @@ class Check(CheckBase):
     title = "Sample streams sharing one image file handle do not disturb one another"
     rule = ("per configuration (AKAI raw and inside MODE1/2352: two files of one partition, one fragmented, one file of a "
             "second partition, an L/R pair through the transcoder (also on an image file that ends inside the right half), the raw-sector image with one wiped sync pattern inside the first file, a three-sector pair with a contiguous left and a fragmented right half, lazy directory listings; Roland: forward + reverse-mode "
-            "sample + listing of another performance, a shared sample with a leading-cluster offset, two samples living in one fragmented chain, two reverse-mode samples and a reverse-mode L/R pair, four pairs in which the left half's start point equals the address of the right half's first cluster; CDDA: three tracks): ALL interleavings of the participants' call programs "
+            "sample + listing of another performance, a shared sample with a leading-cluster offset, two samples living in one fragmented chain, two reverse-mode samples and a reverse-mode L/R pair, four pairs in which the left half's start point equals the address of the right half's first cluster; CDDA: three tracks; two streams of ONE sample obtained by asking the element twice -- Roland forward windows inside / equal to / one word longer than their file, a reverse-mode sample (an element that hands out the same object again has one stream: nothing to compare)): ALL interleavings of the participants' call programs "
             "(block reads of 1, 2, 4096, sector-1, sector+1 bytes and of 6146..30000 bytes over files of five sectors / four clusters, sector-aligned reads of a contiguous file that end "
             "exactly on a sector boundary, read-to-end requests, absolute seeks, ls of unrealised directories, transcoder "
             "steps) on one fresh image object per schedule; thorough adds 3x3-step programs over all 25 block-size pairs. "
@@ -476,6 +488,14 @@ class Check(CheckBase):
             self._one(cfg, pre + rest, rep, iso)
 
     def _one(self, cfg, seq, rep, iso):
+        if any(p.get("view") for p in cfg["parts"]):
+            def same():
+                c = Ctx(cfg["kind"])
+                return any(c.stream(tuple(p["path"]), p["view"]) is c.stream(tuple(p["path"]), 0) for p in cfg["parts"] if p.get("view"))
+            st0, one = guarded(same, 60.0)
+            if st0 == "ok" and one:
+                rep.case({"config": cfg["name"], "schedule": seq}, klass="one-stream-object", nontrivial=False)
+                return
         st, got = guarded(lambda: run_schedule(cfg["kind"], cfg["parts"], seq), 60.0)
         sw = sum(1 for a, b in zip(seq, seq[1:]) if a != b)
         case = {"config": cfg["name"], "schedule": seq}
